@@ -2,19 +2,26 @@
 package c04
 
 import (
+	"context"
 	"fmt"
 	"math/rand"
 	"strings"
+	"sync"
+	"sync/atomic"
 	"testing"
 	"testing/synctest"
 	"time"
 
+	"github.com/aptpod/iscp-go/iscp"
 	"github.com/aptpod/iscp-go/message"
+	"github.com/google/uuid"
 
+	"verif/harness/broker"
 	"verif/harness/downlib"
 	"verif/harness/memnet"
 	"verif/harness/reconlib"
 	"verif/harness/vrun"
+	"verif/harness/world"
 )
 
 func TestC04Acks(t *testing.T) {
@@ -155,11 +162,19 @@ func judgeAcross(o *reconlib.Outcome) vrun.Result {
 		}
 		okAcks := map[uint32]int{}
 		failedAcks := map[uint32]int{}
+		upAnnOK, idAnnOK, upAnnFailed, idAnnFailed := 0, 0, 0, 0
 		for _, li := range o.LinkInfos {
 			for _, r := range li.Log {
 				ack, isAck := r.Msg.(*message.DownstreamChunkAck)
 				if !isAck || r.Dir != memnet.C2S || ack.StreamIDAlias != d.Alias {
 					continue
+				}
+				if r.OK {
+					upAnnOK += len(ack.UpstreamAliases)
+					idAnnOK += len(ack.DataIDAliases)
+				} else {
+					upAnnFailed += len(ack.UpstreamAliases)
+					idAnnFailed += len(ack.DataIDAliases)
 				}
 				for _, rs := range ack.Results {
 					if r.OK {
@@ -189,6 +204,19 @@ func judgeAcross(o *reconlib.Outcome) vrun.Result {
 				return vrun.Violation("an acknowledgement names a chunk that ReadDataPoints never returned", "ack-for-unconsumed-across-resume", map[string]any{"downstream": i, "seq": sq})
 			}
 		}
+		// every chunk names the same upstream and the same data id in full form: once a chunk was consumed, each of the
+		// two has to be announced exactly once in an ack the transport accepted - on whichever link
+		if len(d.Consumed) > 0 {
+			if upAnnOK != 1 || idAnnOK != 1 {
+				key := "announcement-lost-across-resume"
+				if upAnnOK > 1 || idAnnOK > 1 {
+					key = "announcement-repeated-across-resume"
+				}
+				return vrun.Violation("the upstream and the data id first seen in full form were not each announced exactly once in an ack the transport accepted", key,
+					map[string]any{"downstream": i, "qos": d.Spec.QoS, "upstream_announcements_written_ok": upAnnOK, "data_id_announcements_written_ok": idAnnOK,
+						"upstream_announcements_whose_write_failed": upAnnFailed, "data_id_announcements_whose_write_failed": idAnnFailed, "chunks_consumed": len(d.Consumed)})
+			}
+		}
 		judged++
 		consumedTotal += len(d.Consumed)
 	}
@@ -203,3 +231,154 @@ func judgeAcross(o *reconlib.Outcome) vrun.Result {
 }
 
 var _ = rand.Int
+
+// TestC04ConcurrentReaders: several goroutines call ReadDataPoints on one downstream at once. Every chunk that any of them
+// gets is acknowledged exactly once; ack ids still increase strictly from 1.
+func TestC04ConcurrentReaders(t *testing.T) {
+	e := vrun.LoadEnv()
+	meta := vrun.Meta{Property: "C04", Workload: "TestC04ConcurrentReaders", Total: e.Pick(60, 3000),
+		Rule:        "real time: one reliable downstream, 2-8 reader goroutines, the broker sends 400-2400 chunks from 1-3 upstreams in bursts of at most 200 unconsumed, ack flush interval 1 ms / 5 ms / 1 s; after everything was read the stream is closed. Oracle on the broker's ledger: every (upstream, sequence number) that some reader got appears in exactly one DownstreamChunkAck result, nothing else is acknowledged, ack ids increase strictly from 1, the last ack precedes the close request. non-trivial = at least 2 readers each got at least one chunk; distinct = scenario tuple",
+		Assumptions: []string{"fewer than 1024 unconsumed chunks in flight (documented inbox depth)"}}
+	vrun.Loop(t, meta, 0, func(c *vrun.Case) vrun.Result {
+		var res vrun.Result
+		ok, dump := vrun.Watchdog(120*time.Second, func() { res = runConcurrentReaders(c) })
+		if !ok {
+			res = vrun.WatchdogVerdict("the case never finished")
+			if res.Verdict == vrun.Inconclusive {
+				res.Witness = map[string]any{"dump_head": dump[:min(len(dump), 4000)]}
+			}
+		}
+		return res
+	})
+}
+
+func runConcurrentReaders(c *vrun.Case) vrun.Result {
+	r := c.Rng
+	readers, total, nups := 2+r.Intn(7), 400+r.Intn(2001), 1+r.Intn(3)
+	flush := []time.Duration{time.Millisecond, 5 * time.Millisecond, time.Second}[r.Intn(3)]
+	desc := map[string]any{"readers": readers, "chunks": total, "upstreams": nups, "ack_flush_interval": flush.String()}
+	done := func(v vrun.Result) vrun.Result { v.Desc = desc; return v }
+	w := world.New()
+	defer w.Close()
+	w.Start()
+	conn, err := w.Connect(iscp.WithConnPingInterval(time.Hour))
+	if err != nil {
+		return done(vrun.Inconcl("connect: " + err.Error()))
+	}
+	defer conn.Close(context.Background())
+	ctx, cancel := context.WithTimeout(context.Background(), 90*time.Second)
+	defer cancel()
+	down, err := conn.OpenDownstream(ctx, []*message.DownstreamFilter{{SourceNodeID: "src", DataFilters: []*message.DataFilter{{Name: "#", Type: "#"}}}}, iscp.WithDownstreamQoS(message.QoSReliable), iscp.WithDownstreamAckFlushInterval(flush))
+	if err != nil {
+		return done(vrun.Inconcl("open downstream: " + err.Error()))
+	}
+	dss := w.B.Downs()
+	if len(dss) != 1 {
+		return done(vrun.Inconcl("broker saw no downstream"))
+	}
+	alias := dss[0].Alias
+	lc := w.B.CurrentLink()
+	type key struct {
+		up  uuid.UUID
+		seq uint32
+	}
+	var mu sync.Mutex
+	got := map[key]int{}
+	perReader := make([]int, readers)
+	var consumed atomic.Int64
+	var wg sync.WaitGroup
+	rctx, rcancel := context.WithCancel(ctx)
+	for ri := 0; ri < readers; ri++ {
+		wg.Add(1)
+		go func(ri int) {
+			defer wg.Done()
+			for consumed.Load() < int64(total) {
+				ch, err := down.ReadDataPoints(rctx)
+				if err != nil {
+					return
+				}
+				mu.Lock()
+				got[key{ch.UpstreamInfo.StreamID, ch.SequenceNumber}]++
+				perReader[ri]++
+				mu.Unlock()
+				if consumed.Add(1) >= int64(total) {
+					rcancel()
+				}
+			}
+		}(ri)
+	}
+	id := &message.DataID{Name: "d", Type: "t"}
+	seqs := make([]uint32, nups)
+	for sent := 0; sent < total; sent++ {
+		for int64(sent)-consumed.Load() >= 200 {
+			time.Sleep(50 * time.Microsecond)
+		}
+		u := sent % nups
+		seqs[u]++
+		lc.Send(&message.DownstreamChunk{StreamIDAlias: alias, UpstreamOrAlias: &message.UpstreamInfo{SessionID: fmt.Sprintf("s%d", u), SourceNodeID: "src", StreamID: broker.StreamIDFor("cr", "u", u)},
+			StreamChunk: &message.StreamChunk{SequenceNumber: seqs[u], DataPointGroups: []*message.DataPointGroup{{DataIDOrAlias: id, DataPoints: []*message.DataPoint{{ElapsedTime: time.Duration(sent), Payload: []byte("x")}}}}}})
+	}
+	wg.Wait()
+	rcancel()
+	if consumed.Load() < int64(total) {
+		return done(vrun.Inconcl(fmt.Sprintf("readers got %d of %d chunks", consumed.Load(), total)))
+	}
+	cctx, cc := context.WithTimeout(context.Background(), 30*time.Second)
+	cerr := down.Close(cctx)
+	cc()
+	if cerr != nil {
+		return done(vrun.Inconcl("close: " + cerr.Error()))
+	}
+	time.Sleep(2 * time.Millisecond)
+	acked := map[key]int{}
+	lastAckID, nAcks := uint32(0), 0
+	closeSeen := false
+	for _, en := range w.B.Ledger() {
+		if en.Dir != memnet.C2S {
+			continue
+		}
+		switch m := en.Msg.(type) {
+		case *message.DownstreamCloseRequest:
+			closeSeen = true
+		case *message.DownstreamChunkAck:
+			if m.StreamIDAlias != alias {
+				continue
+			}
+			if closeSeen {
+				return done(vrun.Violation("an acknowledgement was sent after the close request", "ack-after-close:concurrent-readers", nil))
+			}
+			nAcks++
+			if m.AckID <= lastAckID {
+				return done(vrun.Violation("ack ids do not increase strictly from 1", "ack-id-not-increasing:concurrent-readers", map[string]any{"previous": lastAckID, "got": m.AckID}))
+			}
+			lastAckID = m.AckID
+			for _, rs := range m.Results {
+				acked[key{rs.StreamIDOfUpstream, rs.SequenceNumberInUpstream}]++
+			}
+		}
+	}
+	for k, n := range got {
+		if n != 1 {
+			return done(vrun.Violation("one chunk was returned to more than one reader", "chunk-returned-twice:concurrent-readers", map[string]any{"seq": k.seq, "times": n}))
+		}
+		if acked[k] != 1 {
+			return done(vrun.Violation("a chunk returned by ReadDataPoints was not acknowledged exactly once (several goroutines read the stream concurrently)", "chunk-ack-count:concurrent-readers",
+				map[string]any{"upstream": k.up.String(), "seq": k.seq, "acknowledged_times": acked[k], "readers": readers, "acks": nAcks}))
+		}
+	}
+	for k := range acked {
+		if got[k] == 0 {
+			return done(vrun.Violation("an acknowledgement names a chunk no reader got", "ack-for-unconsumed:concurrent-readers", map[string]any{"seq": k.seq}))
+		}
+	}
+	active := 0
+	for _, n := range perReader {
+		if n > 0 {
+			active++
+		}
+	}
+	res := vrun.Hold(fmt.Sprintf("%d|%d|%d|%v", readers, total/400, nups, flush), active >= 2)
+	res.Stat("chunks_read_by_concurrent_readers", int64(total))
+	res.Stat("acks", int64(nAcks))
+	return done(res)
+}
